@@ -681,6 +681,10 @@ def enum_tokens():
 # ---------------------------------------------------------------------------
 
 
+# coverage-guided stage (atheris drives these Hypothesis shards, see vf/run.py): {tier: {shard kind: (shards, executions)}}
+CG = {'quick': {'hyp_rd': (2, 1000)}, 'thorough': {'hyp_rd': (8, 30000), 'hyp_mw': (4, 10000)}}
+
+
 def plan(tier, seed, scale=1.0):
     b = BOUNDS[tier]
     specs = []
